@@ -34,7 +34,8 @@ EXPLANATION = (
     ' '
     'R-C06.12 module redirections of the legacy unpickler that test a dotted prefix also cover the package name itself.'
     ' '
-    'R-C06.13 connector and negation of a Q are stored independently, the connector whenever it differs from the default.')
+    'R-C06.13 connector and negation of a Q are stored independently, the connector whenever it differs from the default.'
+    ' R-C06.14 (= R-C10.5) no comparison against an UpgradeMethod string constant is by identity: a value read back from a stored signature is equal to the constant, not the same object, so an identity test makes the second write of a reloaded signature differ from the first.')
 NOT_DECIDED = (
     'Round-trip equality for all values (nested Q/F/expressions, unicode, '
     'enums, legacy pickles) - needs execution.')
@@ -1136,7 +1137,19 @@ def r13_q_state_stored_independently(ctx, rule_id='R-C06.13'):
                'the connector whenever it differs from the default')
 
 
+def r14_string_constants_compared_by_value(ctx):
+    """What is read back from storage is *equal* to what was written, never
+    the same object: a serialiser that decides what to write by comparing a
+    stored attribute to a string constant by identity writes one thing for a
+    signature built in this process and another for the same signature
+    after a reload (R-C10.5's rule, which is a storage-fidelity rule as
+    much as a hand-over one)."""
+    from . import c10
+    c10.r5_upgrade_method_compared_by_value(ctx, 'R-C06.14')
+
+
 def run(ctx):
+    r14_string_constants_compared_by_value(ctx)
     r13_q_state_stored_independently(ctx)
     r12_module_remaps_cover_the_package_itself(ctx)
     r11_current_format_read_from_stored_data_alone(ctx)
